@@ -182,6 +182,7 @@ def run_case(model, scratch, kind, idx, seed):
     payload["report"] = s.report.decode("utf-8", "replace")[:3000]
     inv0 = X.inventory(s.treedir)
     sym_in_report = any(inv0.get(p, ("?",))[0] == "l" for g in groups for p in g["files"])
+    rel_links_in_report = any(inv0.get(p, ("?",))[0] == "l" and not inv0[p][3].startswith(b"/") for g in groups for p in g["files"])
     if sym_in_report:
         s.threads = 1
     tree_aux = X.model_tree(s, X.inventory(s.base))
@@ -272,7 +273,8 @@ def run_case(model, scratch, kind, idx, seed):
     n6 = False
     if sym_in_report and (b"for write: No such file or directory" in rerr or
                           (b"Failed to copy file" in rerr and b"No such file or directory" in rerr)):
-        n6 = any(inv0.get(p, ("?",))[0] == "l" and X.resolve(inv0, p) not in (None, p) and X.resolve(inv0, p) not in invB
+        n6 = any(inv0.get(p, ("?",))[0] == "l" and X.resolve(inv0, p) not in (None, p) and
+                 not X.entry_same(inv0.get(X.resolve(inv0, p)), invB.get(X.resolve(inv0, p)))
                  for g in groups for p in g["files"])
     n6sig = {"kind": "symlink_victim_after_its_target"}
     if s.op != "dedupe" and changed_real != script_victims and not (s.op == "link" and set(changed_real) <= set(script_victims)):
@@ -293,7 +295,7 @@ def run_case(model, scratch, kind, idx, seed):
                 viol({"kind": "dry_summary_differs_from_model"}, "Would process %d files and reclaim %s; model %d files, %d B (%s)" % (
                     dsum["n"], dsum["bytes_text"], dn, db, human(db)), found=False)
             if s.op != "dedupe" and (rsum["n"] != m["processed"] or rsum["bytes_text"] != human(m["reclaimed"])):
-                viol({"kind": "real_summary_differs_from_model"}, "Processed %d files / %s; model %d files, %d B" % (
+                viol(n6sig if (n6 and rel_links_in_report) else {"kind": "real_summary_differs_from_model"}, "Processed %d files / %s; model %d files, %d B" % (
                     rsum["n"], rsum["bytes_text"], m["processed"], m["reclaimed"]), found=False)
     if m is not None:
         full1 = X.inventory(s.base)
@@ -308,8 +310,10 @@ def run_case(model, scratch, kind, idx, seed):
         except Exception as e:
             d = "model driver: %r" % (e,)
         if d:
-            viol({"kind": "real_run_differs_from_model"}, "final tree of the real run differs from the model's: " + d,
-                 {"model_cmds": m["cmds"][:20]}, found=False)
+            # FsModel follows only absolute link targets (the tree handed to the model has them absolutised): when a relative
+            # symlink is re-created elsewhere by K7 the model cannot follow the implementation; that case is N6 / K7, not a new one
+            viol(n6sig if (n6 and rel_links_in_report) else {"kind": "real_run_differs_from_model"},
+                 "final tree of the real run differs from the model's: " + d, {"model_cmds": m["cmds"][:20]}, found=False)
     # ---- 3. bash on an identical tree
     if do_bash and script:
         shutil.rmtree(s.treedir)
